@@ -706,6 +706,33 @@ def special_constraint_cases(g, rng):
     return cases
 
 
+def dictionary_slot_cases(g, rng):
+    """EVERY dictionary-kind property (dictionary, hashes) of EVERY class, at whatever depth the class sits (external
+    reference, NTFS alternate data stream, PE section, extension ...): the empty dictionary, and keys just outside the
+    length bounds of the property's specification version (2.0: 2 / 257, 2.1: 251); constructor route, plus parse for
+    registered types."""
+    cases = []
+    for cid, c in g.classes.items():
+        slots = [s for s in c["slots"] if s["kind"]["k"] in ("dict", "hashes")]
+        if not slots:
+            continue
+        o = g.obj(cid, 0, {"safe": True}, optional_p=0.3)
+        routes = ["construct", "parse"] if sc.is_toplevel(g, cid) else ["construct"]
+        for s in slots:
+            vals = [("empty-dictionary", {})]
+            if s["kind"]["k"] == "dict":
+                for n in ((2, 257) if s["kind"]["ver"] == "2.0" else (251, 257)):
+                    vals.append(("dict-key-length-%d" % n, {"k" * n: "v"}))
+            for i, (lab, v) in enumerate(vals):
+                x = dict(o)
+                x[s["name"]] = v
+                cases += sc.route_cases(g, cid, x, {"origin": "corrupt", "ckind": lab, "slot": s["name"], "cid": cid}, rng,
+                                        [routes[i % len(routes)]])
+                if lab == "empty-dictionary" and len(routes) > 1:
+                    cases += sc.route_cases(g, cid, x, {"origin": "corrupt", "ckind": lab, "slot": s["name"], "cid": cid}, rng, ["parse"])
+    return cases
+
+
 def selector_cases(g, rng):
     """Objects whose one granular marking selects up to ten of the object's OWN paths, of every shape present (top-level
     property, list element, property of an embedded object inside a list, dictionary key, nested): parse route."""
@@ -869,6 +896,7 @@ def check(run):
     cases += witness_cases()
     cases += special_constraint_cases(g, run.rng)
     cases += extension_type_cases(g, run.rng)
+    cases += dictionary_slot_cases(g, run.rng)
     cases += selector_cases(g, run.rng)
     cases += offset_cases(g, run.rng)
     cases += size_cases(g, run.rng, 1 if quick else 3)
